@@ -22,6 +22,7 @@ from sa import families, taint
 from sa.taint import run_roles, norm_term, split_items, split_args, concat_parts, int_equiv, bind_call, call_text
 
 KEYSUM = 'sum(symkey)'
+CT_ENCRYPT = ('self.ct.encrypt', 'type(self.ct).encrypt', 'self.ct.__class__.encrypt')        # encrypt is a classmethod of the ciphertext class
 BITS = [64, 128, 192, 256]
 
 
@@ -79,8 +80,9 @@ def decrypt_wiring(rep, prog):
             R = [call_text(c) for c in dsk]
             names = prog.method('pgpy.packet.packets', 'IntegrityProtectedSKEDataV1', 'decrypt').params[1:]       # (key, alg)
             da = bind_call(dec[0], names) if len(dec) == 1 else {}
-            ok = len(dec) == 1 and set(da) == set(names) and len(names) == 2 and \
-                any([da[names[0]], da[names[1]]] == ['%s[1]' % r, '%s[0]' % r] for r in R)
+            ok = len(dec) == 1 and ((set(da) == set(names) and len(names) == 2 and
+                                     any([da[names[0]], da[names[1]]] == ['%s[1]' % r, '%s[0]' % r] for r in R)) or
+                                    (not dec[0][2] and any(dec[0][1] == ['*reversed(%s)' % r] for r in R)))
             rep.check(ok, 'C03.7', '%s.decrypt' % cls, 'container.decrypt(%s)' % (', '.join(dec[0][1])[:120] if dec else None),
                       'the container must be decrypted with the session key and the cipher that decrypt_sk recovered (in that order)',
                       where=fi.where, expected='message.decrypt(R[1], R[0]) with R = <esk>.decrypt_sk(...)', found=dec[0][1] if dec else None)
@@ -96,7 +98,7 @@ def m_value_ok(text):
         return False
     if not (its[2].startswith('INT(2;') and its[2].endswith(')')):
         return False
-    chk = its[2][len('INT(2;'):-1]
+    chk = its[2][len('INT(2;'):-1].replace('functools.reduce(operator.add, symkey, 0)', KEYSUM).replace('functools.reduce(operator.add, symkey)', KEYSUM)
     return int_equiv(chk, lambda S: S % 65536, {KEYSUM: ('S', [0, 1, 255, 65535, 65536, 65537, 131071, 200000, 16711680])}) is True
 
 
@@ -108,7 +110,7 @@ def pkesk(rep, prog):
         outs = run_roles(prog, fi, ('self', 'pk', 'symalg', 'symkey'), bind={'self.pkalg': enum_const(prog, 'PubKeyAlgorithm', alg)})
         rep.analysed['paths'] += len(outs)
         for s in outs:
-            enc = [c for c in s.calls if c[0] == 'self.ct.encrypt']
+            enc = [c for c in s.calls if c[0] in CT_ENCRYPT]
             if len(enc) != 1:
                 rep.violation('C03.1', W, '%s: %d encrypt calls' % (alg, len(enc)), 'expected one public-key encryption', where=fi.where, scenario=alg)
                 continue
@@ -126,7 +128,7 @@ def pkesk(rep, prog):
                 rep.check(a[0] == 'pk' and len(a) == 2 and not enc[0][2], 'C03.1', W, 'ECDH: %s' % a[0],
                           'ECDH must wrap the m-value for the recipient key itself', where=fi.where, scenario=alg, found=a[:1] + a[2:])
             stores = [v for p, v, l, _ in s.stores if p == 'self.ct']
-            rep.check(stores == [call_text(enc[0])], 'C03.1', W,
+            rep.check(stores == [call_text(enc[0])] or stores == ['self.ct.encrypt(%s)' % ', '.join(enc[0][1])], 'C03.1', W,
                       '%s: self.ct = %s' % (alg, stores[0][:60] if stores else None), 'the packet must carry the result of the encryption',
                       where=fi.where, scenario=alg)
             rep.check(_events_order(s, lambda e: _store(e, 'self.ct'), lambda e: _call(e, 'self.update_hlen')), 'C03.1', W, '%s: update_hlen' % alg,
@@ -191,9 +193,9 @@ def pkesk(rep, prog):
     rep.saw(fn=fs)
     for alg, want in (('RSAEncryptOrSign', 'RSACipherText'), ('ECDH', 'ECDHCipherText')):
         got = set()
-        for s in run_roles(prog, fs, ('self', 'val'), args={'val': enum_const(prog, 'PubKeyAlgorithm', alg)}):
-            if s.raised:
-                continue
+        outs = [s for s in run_roles(prog, fs, ('self', 'val'), args={'val': enum_const(prog, 'PubKeyAlgorithm', alg)}) if not s.raised]
+        plain = [s for s in outs if not any(f[0].startswith('except ') for f in s.facts)]
+        for s in (plain or outs):           # an `except KeyError:` arm around the table lookup is only entered when the lookup fails
             st = [(v, val) for p, v, l, val in s.stores if p == 'self.ct']
             got.add(st[-1][1].cls.name if st and isinstance(st[-1][1], Obj) and st[-1][1].cls is not None else (st[-1][0] if st else None))
         rep.check(got == {want}, 'C03.1', 'PKESessionKeyV3.pkalg', '%s -> %s' % (alg, sorted(map(str, got))),
@@ -356,12 +358,15 @@ def skesk(rep, prog):
         if s.raised:
             continue
         ev = [e for e in s.events if e[0] in ('call', 'store', 'del')]
-        ins = [i for i, e in enumerate(ev) if _call(e, 'packet.insert') and e[2] == ['0', '255']]
+        ins = [i for i, e in enumerate(ev) if (_call(e, 'packet.insert') and e[2] == ['0', '255']) or
+               (_store(e, sl('packet', ('', 0))) and e[2] == 'C(ff)')]          # packet.insert(0, 255) / packet[:0] = b'\xff'
         s2k = [i for i, e in enumerate(ev) if _call(e, 'self.s2k.parse') and
                ((e[2] == ['packet'] and e[3] == {'iv': 'False'}) or (e[2] == ['packet', 'False'] and not e[3]))]
         take = sl('packet', ('', lin_add('self.header.length', 'len(self.s2k)', -1)))
         ct = [i for i, e in enumerate(ev) if _store(e, 'self.ct') and e[2] == take]
-        dl = [i for i, e in enumerate(ev) if (e[0] == 'del' and e[1] == take) or (_store(e, take) and e[2] in ('C()', "''", ''))]   # del b[:n] / b[:n] = b''
+        n_ = lin_add('self.header.length', 'len(self.s2k)', -1)
+        dl = [i for i, e in enumerate(ev) if (e[0] == 'del' and e[1] == take) or (_store(e, take) and e[2] in ('C()', "''", '')) or
+              (_store(e, sl('packet', ('', ''))) and e[2] == sl('packet', (n_, '')))]       # del b[:n] / b[:n] = b'' / b[:] = b[n:]
         lens = [i for i, e in enumerate(ev) if _call(e, 'len') and e[2] == ['self.s2k']] + \
             [i for i, e in enumerate(ev) if _call(e, 'self.s2k.__len__')]
         ok = len(ins) == 1 and len(s2k) == 1 and len(ct) == 1 and len(dl) == 1 and ins[0] < s2k[0] < ct[0] <= dl[0] + 1 and \
@@ -399,9 +404,8 @@ def symenc(rep, prog):
                 if ok and ivgiven:
                     ok = ma['initialization_vector'] == 'iv'
                 elif ok:
-                    z = ma['initialization_vector']
-                    ok = z.startswith('REP(C(00);') and z.endswith(')') and \
-                        int_equiv(z[len('REP(C(00);'):-1], lambda B: B // 8, {'alg.block_size': ('B', BITS)}) is True
+                    z = taint.zero_octets(ma['initialization_vector'])
+                    ok = z is not None and int_equiv(z, lambda B: B // 8, {'alg.block_size': ('B', BITS)}) is True
                 if ok:
                     Cc = '%s.%s()' % (call_text(ctor[0]), kind)
                     ok = concat_parts(render(s.ret)) == ['%s.update(%s)' % (Cc, arg), '%s.finalize()' % Cc]
@@ -432,7 +436,7 @@ def ecdh(rep, prog):
         kw = _kdf_args(kd[0])
         exp_info = [sl('encoder.encode(curve.value)', (1, '')), 'BYTE(pkalg)', 'C(0301)', 'BYTE(self.halg)', 'BYTE(self.encalg)',
                     'C(416e6f6e796d6f75732053656e64657220202020)', "binascii.unhexlify(fingerprint.replace(' ', ''))"]
-        info = split_items(kw.get('otherinfo'))
+        info = [x.replace("''.join(fingerprint.split(' '))", "fingerprint.replace(' ', '')") for x in split_items(kw.get('otherinfo'))]
         rep.check(info == exp_info, 'C03.5', 'ECKDF.derive_key', 'Param = %s' % ' '.join(info),
                   'KDF parameter block must be OID-len||OID || alg id || 03 01 || KDF hash || KEK alg || "Anonymous Sender    " || fingerprint '
                   '(RFC 6637 section 8)', where=fk.where, expected=' '.join(exp_info), found=' '.join(info))
@@ -551,6 +555,7 @@ def compression(rep, prog):
         rep.saw(fn=f)
         for m, pair in table.items():
             outs = run_roles(prog, f, ('self', 'data'), args={'self': enum_const(prog, 'CompressionAlgorithm', m)})
-            rets = sorted(set(render(s.ret).replace(', wbits=', ', ') for s in outs if s.raised is None))      # zlib.decompress(data, wbits=-15)
+            rets = sorted(set(taint.qualify_imports(render(s.ret), f.module).replace(', wbits=', ', ').replace('-zlib.MAX_WBITS', '-15')
+                              for s in outs if s.raised is None))      # zlib.decompress(data, wbits=-15); zlib.MAX_WBITS is 15
             rep.check(rets == [pair[idx]], 'C03.6', 'CompressionAlgorithm.%s' % name, '%s -> %s' % (m, rets),
                       '%s arm of %s must be the inverse of its sibling' % (name, m), where=f.where, expected=pair[idx], found=rets, scenario=m)
